@@ -404,6 +404,58 @@ def probe_pipe_wouldblock():
     return lost, text
 
 
+def probe_tls_wouldblock():
+    """the same would-block, on a non-blocking TLS socket: `SSLSocket.recv` reports it as ssl.SSLWantReadError
+    (an OSError with errno 2 = SSL_ERROR_WANT_READ, not EAGAIN), which is in nobody's retry list.  No certificates:
+    an anonymous-DH TLS 1.x session over a socketpair.  Returns (probed, packet_lost, text)."""
+    import ssl
+    from rpyc.core import channel, stream as S
+    a, b = socket.socketpair()
+    try:
+        sctx = ssl.SSLContext(ssl.PROTOCOL_TLS_SERVER)
+        cctx = ssl.SSLContext(ssl.PROTOCOL_TLS_CLIENT)
+        cctx.check_hostname = False
+        cctx.verify_mode = ssl.CERT_NONE
+        for ctx in (sctx, cctx):
+            ctx.maximum_version = ssl.TLSVersion.TLSv1_2
+            ctx.set_ciphers("ADH:AECDH:@SECLEVEL=0")
+        box = {}
+
+        def serve():
+            try:
+                box["s"] = sctx.wrap_socket(a, server_side=True)
+            except Exception as ex:  # noqa
+                box["s"] = ex
+        th = threading.Thread(target=serve, daemon=True)
+        th.start()
+        c = cctx.wrap_socket(b)
+        th.join(5.0)
+        srv = box.get("s")
+        if not isinstance(srv, ssl.SSLSocket):
+            return False, False, "TLS not probed: %r" % (srv,)
+    except Exception as ex:  # noqa
+        for s_ in (a, b):
+            s_.close()
+        return False, False, "TLS not probed (no anonymous cipher suite in this OpenSSL build): %s" % (ex,)
+    frame = channel.Channel.FRAME_HEADER.pack(5, 0) + b"hello" + channel.Channel.FLUSHER
+    srv.sendall(frame[:7])                                # one TLS record with the header and two bytes
+    c.setblocking(False)
+    st = S.SocketStream(c)
+    try:
+        got = channel.Channel(st, compress=False).recv()
+        lost, text = got != b"hello", "recv returned %r" % (got,)
+    except Exception as ex:  # noqa
+        lost = True
+        text = "recv raised %s(%s); stream.closed=%s (the rest of the frame had not been sent yet)" % (
+            type(ex).__name__, ex, st.closed)
+    for s_ in (srv, c):
+        try:
+            s_.close()
+        except Exception:  # noqa
+            pass
+    return True, lost, text
+
+
 def _safe(f):
     try:
         return repr(f())
